@@ -36,6 +36,10 @@ CHECKS = {
    technique="property-based testing (rapid) of generated transform programs against an independent reference interpreter (differential), with a prefix bound for sampled dropping",
    text="Transform programs from a grammar (every transform type except parseTime/redactEmail which have their own properties; all match operators; nesting to depth 3) are rendered to YAML and loaded through the real verification and construction path, then run on batches of records whose values are substrings of one pooled backing buffer and are biased to the program's own literals and limits; fields, PASS/DROP, the unescaped flag and every metric label count must equal the reference interpreter; sampled drops are decided by observing the documented per-label counters and must stay within one record of the percentage at every prefix.",
    note="Where the documentation is silent (addFields with an empty expansion leaves the field, mapValue default may clear it, class-only patterns ignore maxLen) the reference follows the behaviour of the pinned tree and acts as a regression oracle. addFields steps with several fields never read each other's destinations (Go map order); glob '?' is excluded (third-party rune semantics); regex semantics are those of Go's regexp package, which is trusted."),
+ "C16": dict(engine="c16config", category="fault_enumeration", design="§3 C16",
+   technique="exhaustive site x fault enumeration on the YAML node tree of valid configurations + property-based generation (rapid) of valid configuration files, with full synchronous instantiation as the oracle",
+   text="Every node of the sample configuration and of a second hand-written one is deleted, emptied, or (scalars) replaced by 19 fault values and by every schema field name (about 15 000 mutants); rapid adds generated valid configuration files (transform grammar, byKeySet/singleton, 1-2 outputs with rewrites) with and without a random mutation. run.ParseConfigFile must return a value, never panic; every accepted file is instantiated completely - parser and extractions, pipeline transforms, serializers, chunk makers (55 records processed twice synchronously), then the real orchestrator with real hybrid buffers and a recording consumer - without panic or memory fault.",
+   note="Crash signatures are normalised (innermost repository frame + masked message). buffer rootPath values and the anchors section are not mutated (not expressions). defs sizes are scaled (8 KB messages) because they only size buffers here. A mutant that is accepted and merely behaves differently is not a violation of this property."),
 }
 
 NOT_YET = {}
